@@ -402,53 +402,57 @@ def ext_readings(filename):
     return out
 
 
-def _placeholders(template):
+def _is_file(v):
+    return isinstance(v, tuple) and len(v) == 2 and v[0] == "file"
+
+
+def no_usable_last_component(template, refs):
+    """class predicate for the known finding `template-formats-to-dot-or-dotdot-escapes-job-dir`:
+    the template, formatted with the (non-file) input values, has no last path component that could
+    name a file ('..', '.', '' or a trailing '/').  refs: name -> value, a file input given as
+    ('file', <file name>)."""
+    if any(_is_file(v) for v in refs.values()):
+        return False
+    try:
+        text = template.format(**refs)
+    except (KeyError, IndexError, ValueError):
+        return False
+    return os.path.basename(os.path.normpath(text)) in ("", ".", "..") if text else True
+
+
+def extension_demand(template, fname, refs):
+    """Does the property's extension clause ('keeping or dropping the input file's extension as
+    declared') say anything about this template?  It does when the template references the file
+    input `fname` and nothing after that reference can be read as the template's OWN extension:
+    no '.' in the literal template text after the field (format specs such as {x:.1f} are not
+    template text) and no string value with a '.' rendered after it (a string may carry an
+    extension; a number does not).  Otherwise every outcome is accepted."""
     import re
 
-    return re.findall(r"{(\w+)(?::[^{}]*)?}", template)
+    ph = "{" + fname + "}"
+    if ph not in template:
+        return False
+    after = template[template.rindex(ph) + len(ph) :]
+    literal = re.sub(r"{[^{}]*}", "", after)
+    if "." in literal:
+        return False
+    for n in re.findall(r"{(\w+)(?::[^{}]*)?}", after):
+        v = refs.get(n)
+        if isinstance(v, str) and "." in v:
+            return False
+    return True
 
 
-def template_names(template, refs, keep_extension):
-    """acceptable FILE NAMES (last path component inside the job directory) for one formatted
-    template.  refs: name -> value where a file input is given as ('file', <file name>) and any
-    other value (str / int / float) as itself.  At most one file may be referenced.
-    Returns a set of names; an empty set means 'no name can be demanded' (the formatted text has
-    no usable last component)."""
-    import re
-
-    used = _placeholders(template)
-    files = [n for n in used if isinstance(refs[n], tuple) and refs[n][0] == "file"]
-    plain = {n: v for n, v in refs.items() if not (isinstance(v, tuple) and v[0] == "file")}
-    texts = set()
-    if not files:
-        texts.add(template.format(**plain))
-    else:
-        (fname,) = set(files)
-        filename = refs[fname][1]
-        ph = re.compile(r"{%s}" % re.escape(fname))
-        after = template[template.rindex("{" + fname + "}") + len(fname) + 2 :]
-        # literal template text after the file field, format specs of other fields removed
-        after_literal = re.sub(r"{[^{}]*}", "", after)
-        own_ext = "." in after_literal
-        for stem, ext in ext_readings(filename):
-
-            def fmt(sub):
-                return ph.sub(lambda m: sub.replace("{", "{{").replace("}", "}}"), template).format(**plain)
-
-            if not keep_extension:
-                texts.add(fmt(stem))  # "dropping the input file's extension"
-            elif own_ext:
-                # the template spells its own extension: it replaces the input's, or the input
-                # name is used whole
-                texts.add(fmt(stem))
-                texts.add(fmt(filename))
-            else:
-                # "keeping the input file's extension": in place, or moved to the end of the name
-                texts.add(fmt(filename))
-                texts.add(fmt(stem) + ext)
-    names = set()
-    for t in texts:
-        last = os.path.basename(os.path.normpath(t)) if t else ""
-        if last not in ("", ".", ".."):
-            names.add(last)
-    return names
+def extension_clause_ok(name, filename, keep_extension):
+    """The extension clause on a resolved file NAME, accepting every reading of 'the input file's
+    extension' (all suffixes from the first dot, or the last suffix only) and of 'keeping' (in
+    place or moved to the end of the name):
+      keep  -> under SOME reading the extension is still there (name ends with it, or the whole
+               input file name occurs in it);
+      drop  -> under SOME reading it is gone.
+    A file name without extension satisfies the clause trivially."""
+    readings = [(stem, ext) for stem, ext in ext_readings(filename) if ext]
+    if not readings:
+        return True
+    present = [name.endswith(ext) or filename in name for _, ext in readings]
+    return any(present) if keep_extension else not all(present)
